@@ -28,6 +28,9 @@ var checks = []*CheckSpec{
 		Entries: []EntrySpec{
 			{Pkg: "datalog", Func: "VerifC06Binary", Quick: p(), Thorough: p(), Covers: []string{"evaluated", "error", "value"}},
 			{Pkg: "datalog", Func: "VerifC06Unary", Quick: p(), Thorough: p(), Covers: []string{"evaluated"}},
+			// sets written with repeated elements ([1, 1] is accepted by parser, builders and decoder and denotes {1})
+			{Pkg: "datalog", Func: "VerifC06Binary", Quick: p("dupsets", 1), Thorough: p("dupsets", 1), Covers: []string{"evaluated", "error", "value"}},
+			{Pkg: "datalog", Func: "VerifC06Unary", Quick: p("dupsets", 1), Thorough: p("dupsets", 1), Covers: []string{"evaluated"}},
 			{Pkg: "datalog", Func: "VerifC06Strings", Quick: p("strlen", 2), Thorough: p("strlen", 3), Covers: []string{"evaluated"}},
 			{Pkg: "datalog", Func: "VerifC06StrIndex", Quick: p(), Thorough: p(), Covers: []string{"evaluated"}},
 			{Pkg: "datalog", Func: "VerifC06Sequence", Quick: p("len", 2), Thorough: p("len", 3), Covers: []string{"evaluated"}},
@@ -35,7 +38,7 @@ var checks = []*CheckSpec{
 			{Pkg: "datalog", Func: "VerifC06ArithEdges", Quick: p(), Thorough: p(), Covers: []string{"evaluated"}},
 		},
 		Assumptions: append([]string{
-			"bounds: sets of <= 2 duplicate-free elements, byte arrays <= 2 bytes, symbol strings <= 2 (quick) / 3 (thorough) bytes, operator sequences <= 2 (quick) / 3 (thorough) operations; all 64-bit scalar values symbolic",
+			"bounds: sets of <= 2 elements (written without repetition, and in a second family with repetitions allowed), byte arrays <= 2 bytes, symbol strings <= 2 (quick) / 3 (thorough) bytes, operator sequences <= 2 (quick) / 3 (thorough) operations; all 64-bit scalar values symbolic",
 			"arithmetic is additionally checked with one operand fixed to each of 13 boundary constants (MinInt64, MinInt64+1, -2^32, -3037000500, -2, -1, 0, 1, 2, 3037000500, 2^32, MaxInt64-1, MaxInt64) and the other symbolic, on both sides: multiplication/division by a constant is decidable where the general 64x64 product is not",
 			"regular-expression semantics (matches) are outside the solver claim: Go's regexp is trusted",
 		}, stdAssumptions...),
@@ -64,6 +67,7 @@ func init() {
 				Quick:    p("facts", 2, "rules", 1, "body", 1, "arity", 2, "vars", 2, "expr", 0, "kinds", 1, "varfacts", 0, "varrules", 0),
 				Thorough: p("facts", 2, "rules", 1, "body", 2, "arity", 2, "vars", 2, "expr", 0, "kinds", 1, "varfacts", 0, "varrules", 0),
 				Covers:   []string{"run-ok", "derived"}},
+			{Pkg: "datalog", Func: "VerifC05QueryErrors", Quick: p("facts", 2), Thorough: p("facts", 3), Covers: []string{"queried", "answered"}},
 			// two rules: chains, mutual recursion, a rule feeding itself through the other
 			{Pkg: "datalog", Func: "VerifC05Fixpoint",
 				Quick:    p("facts", 1, "rules", 2, "body", 1, "arity", 1, "vars", 1, "expr", 0, "kinds", 1, "varfacts", 0, "varrules", 0),
